@@ -383,6 +383,9 @@ size_t varintAdaptiveEncodeWith(uint8_t *dst, const uint64_t *values,
         varintPFORMeta pforMeta;
         encodedSize = varintPFOREncode(dst + offset, values, (uint32_t)count,
                                        VARINT_PFOR_THRESHOLD_95, &pforMeta);
+        if (encodedSize == 0 && count > 0) {
+            return 0; /* Encoder failed (out of memory) */
+        }
 
         if (meta) {
             meta->encodingMeta.pforMeta = pforMeta;
@@ -392,6 +395,9 @@ size_t varintAdaptiveEncodeWith(uint8_t *dst, const uint64_t *values,
 
     case VARINT_ADAPTIVE_DICT: {
         encodedSize = varintDictEncode(dst + offset, values, count);
+        if (encodedSize == 0 && count > 0) {
+            return 0; /* Encoder failed (out of memory) */
+        }
         break;
     }
 
@@ -404,7 +410,12 @@ size_t varintAdaptiveEncodeWith(uint8_t *dst, const uint64_t *values,
 
         for (size_t i = 0; i < count; i++) {
             if (values[i] < VARINT_BITMAP_MAX_VALUE) {
-                varintBitmapAdd(vb, (uint16_t)values[i]);
+                const uint16_t member = (uint16_t)values[i];
+                if (!varintBitmapAdd(vb, member) &&
+                    !varintBitmapContains(vb, member)) {
+                    varintBitmapFree(vb);
+                    return 0; /* Out of memory while growing the bitmap */
+                }
             }
         }
 
